@@ -199,8 +199,9 @@ fn prepare(sc: &Scen, dir: PathBuf, init: &[(u64, bitcoin::Block)]) -> World {
     w
 }
 
-/// hash of a dump of every table of the tower's sqlite file (rows sorted)
-fn db_hash(w: &World) -> String {
+/// hash of a dump of every table of the tower's sqlite file (rows sorted) AND of the tower's memory as the
+/// private API shows it (the gatekeeper's users: slots, expiry) - a refused request must change neither
+fn db_hash(w: &mut World) -> String {
     let mut names: Vec<String> = Vec::new();
     {
         let mut stmt = w.reader.prepare("SELECT name FROM sqlite_master WHERE type = 'table' ORDER BY name").unwrap();
@@ -243,6 +244,9 @@ fn db_hash(w: &World) -> String {
             eng.input(&r);
         }
     }
+    let mut mem = verif_harness::Line::new();
+    w.state_tokens(&mut mem);
+    eng.input(mem.0.as_bytes());
     hex::encode(&sha256::Hash::from_engine(eng).to_byte_array()[..8])
 }
 
@@ -316,8 +320,8 @@ impl Env {
     fn select(&mut self, sc: &Scen) -> String {
         if !self.towers.contains_key(sc.name) {
             let dir = self.scratch.join(sc.name);
-            let world = prepare(sc, dir, &self.init);
-            let hash = db_hash(&world);
+            let mut world = prepare(sc, dir, &self.init);
+            let hash = db_hash(&mut world);
             self.builds += 1;
             self.towers.insert(sc.name.to_string(), Prepared { world, hash });
         }
@@ -648,7 +652,7 @@ fn panic_take() -> Option<String> {
 fn observe_after(env: &mut Env, sc: &Scen, before: &str, l: &mut Line) -> bool {
     // the handler task may still be finishing after the reply went out (it does not: the reply is
     // built from its result) - the panic flag and the log are read after the reply
-    let after = env.towers.get(sc.name).map(|p| db_hash(&p.world)).unwrap_or_default();
+    let after = env.towers.get_mut(sc.name).map(|p| db_hash(&mut p.world)).unwrap_or_default();
     let changed = after != before;
     let panic = panic_take();
     l.tok(changed as u8).tok(panic.is_some() as u8).tok(panic.clone().unwrap_or_else(|| "-".into()));
